@@ -1122,7 +1122,8 @@ where
     let mut visited = HashSet::new();
     // Files we want to parse but haven't yet.
     let mut to_visit = Vec::new();
-    let root = path.parent().unwrap();
+    // `/` and the empty path have no parent; reading them fails below with a proper error.
+    let root = path.parent().unwrap_or(path);
 
     if bundle_std {
         to_visit.push(FileOrLib::Lib("preamble"));
